@@ -120,6 +120,23 @@ def main():
                 seen.add(open(rp, 'rb').read() if p.returncode == 0 and os.path.exists(rp) else ('exit %d' % p.returncode).encode())
             print('%d runs over the same directory -> %d different reports' % (int(rec['runs']), len(seen)))
             same = len(seen) > 1
+        elif job == 'solstat_stale':
+            import re
+            binary = os.path.join(w.build, 'solstat')
+            d = os.path.join(n.dir, 'stale')
+            os.makedirs(os.path.join(d, 'contracts'))
+            open(os.path.join(d, 'contracts', 'Vault.sol'), 'w').write(rec['source'])
+            open(os.path.join(d, 'solstat_report.md'), 'w').write(rec['stale'])
+            cmd = [binary]
+            if rec.get('config') is not None:
+                open(os.path.join(d, 'cfg.toml'), 'w').write('path = "contracts"\n' + rec['config'])
+                cmd += ['--toml', 'cfg.toml']
+            p = subprocess.run(cmd, cwd=d, stdout=subprocess.PIPE, stderr=subprocess.PIPE, text=True)
+            rp = os.path.join(d, 'solstat_report.md')
+            rep = open(rp).read() if os.path.exists(rp) else ''
+            got = sorted([m.group(1), int(m.group(2))] for m in re.finditer(r'^- (.+):(-?\d+)$', rep, re.M))
+            print('exit status %d; entries of solstat_report.md after the run: %r ; findings of the run: %r' % (p.returncode, got, rec['expected']))
+            same = p.returncode != 0 or got != [list(x) for x in rec['expected']]
         elif job == 'solstat_dirs':
             import re
             binary = os.path.join(w.build, 'solstat')
@@ -130,12 +147,17 @@ def main():
                 os.makedirs(os.path.join(d, sub))
                 open(os.path.join(d, sub, fname), 'w').write(text)
             open(os.path.join(d, 'afile'), 'w').write(text)
+            tomldir = rec.get('tomldir', '')
+            if tomldir:
+                for sub in ('argdir', 'cfgdir', 'contracts'):
+                    os.makedirs(os.path.join(d, tomldir, sub))
+                    open(os.path.join(d, tomldir, sub, 'FromNextToConfig.sol'), 'w').write(text)
             cmd = [binary]
             if rec['arg'] != 'none':
                 cmd += ['--path', {'dir': 'argdir', 'missing': 'no-such-dir', 'file': 'afile'}[rec['arg']]]
             if rec['cfg'] != 'none':
-                open(os.path.join(d, 'cfg.toml'), 'w').write('path = "%s"\noptimizations = ["sstore"]\nvulnerabilities = []\nqa = []\n' % {'dir': 'cfgdir', 'missing': 'no-such-cfg-dir'}[rec['cfg']])
-                cmd += ['--toml', 'cfg.toml']
+                open(os.path.join(d, tomldir, 'cfg.toml'), 'w').write('path = "%s"\noptimizations = ["sstore"]\nvulnerabilities = []\nqa = []\n' % {'dir': 'cfgdir', 'missing': 'no-such-cfg-dir'}[rec['cfg']])
+                cmd += ['--toml', os.path.join(tomldir, 'cfg.toml')]
             p = subprocess.run(cmd, cwd=d, stdout=subprocess.PIPE, stderr=subprocess.PIPE, text=True)
             rp = os.path.join(d, 'solstat_report.md')
             rep = open(rp).read() if os.path.exists(rp) else ''
